@@ -3,3 +3,283 @@ From Coq Require Import List NArith Bool Lia String.
 From SV Require Import C13.Model C03.Model.
 Import ListNotations.
 Open Scope N_scope.
+
+Ltac case_if := match goal with |- context [if ?c then _ else _] => destruct c eqn:? end.
+
+(** a byte that can be part of a line: neither CR nor LF *)
+Definition line_byte (b : N) : bool := negb (b =? 13) && negb (b =? 10).
+
+(** No byte of a CR/LF-free string can terminate the line it is written on. *)
+Lemma take_line_app v rest :
+  forallb line_byte v = true -> take_line (v ++ crlf ++ rest) = Some (v, rest).
+Proof.
+  induction v as [|b v IH]; intros H.
+  - reflexivity.
+  - cbn [forallb] in H. apply andb_prop in H. destruct H as [Hb Hv].
+    unfold line_byte in Hb. apply andb_prop in Hb. destruct Hb as [H13 H10].
+    cbn [app take_line]. destruct (b =? 13); [discriminate|]. destruct (b =? 10); [discriminate|].
+    rewrite (IH Hv). reflexivity.
+Qed.
+
+Lemma tchar_line_byte b : is_tchar b = true -> line_byte b = true.
+Proof.
+  unfold line_byte. intros H.
+  destruct (b =? 13) eqn:E1; [apply N.eqb_eq in E1; subst; discriminate H|].
+  destruct (b =? 10) eqn:E2; [apply N.eqb_eq in E2; subst; discriminate H|]. reflexivity.
+Qed.
+
+Lemma vbyte_line_byte b : is_vbyte b = true -> line_byte b = true.
+Proof.
+  unfold line_byte. intros H.
+  destruct (b =? 13) eqn:E1; [apply N.eqb_eq in E1; subst; discriminate H|].
+  destruct (b =? 10) eqn:E2; [apply N.eqb_eq in E2; subst; discriminate H|]. reflexivity.
+Qed.
+
+Lemma forallb_impl {A} (p q : A -> bool) l :
+  (forall x, p x = true -> q x = true) -> forallb p l = true -> forallb q l = true.
+Proof.
+  intros Hpq. induction l as [|a l IH]; cbn; [reflexivity|]. intros H.
+  apply andb_prop in H. destruct H as [H1 H2]. rewrite (Hpq _ H1), (IH H2). reflexivity.
+Qed.
+
+(** a well-formed field: non-empty token name, value of field-value bytes *)
+Definition field_ok (h : header) : bool :=
+  negb (match fst h with [] => true | _ => false end) && forallb is_tchar (fst h) && forallb is_vbyte (snd h).
+
+Lemma span_tchar_name n r :
+  forallb is_tchar n = true -> span is_tchar (n ++ 58 :: r) = (n, 58 :: r).
+Proof.
+  induction n as [|b n IH]; intros H.
+  - reflexivity.
+  - cbn [forallb] in H. apply andb_prop in H. destruct H as [Hb Hn].
+    cbn [app span]. rewrite Hb, (IH Hn). reflexivity.
+Qed.
+
+Lemma ltrim_sp v : ltrim (32 :: v) = ltrim v.
+Proof. reflexivity. Qed.
+
+Lemma parse_field_line h :
+  field_ok h = true ->
+  parse_field (fst h ++ B ": "%string ++ snd h) = Some (fst h, trim_ows (snd h)).
+Proof.
+  destruct h as [n v]. unfold field_ok. cbn [fst snd]. intros H.
+  apply andb_prop in H. destruct H as [H Hv]. apply andb_prop in H. destruct H as [Hne Hn].
+  unfold parse_field. change (B ": "%string ++ v) with (58 :: 32 :: v).
+  rewrite (span_tchar_name n (32 :: v) Hn).
+  destruct n as [|b n]; [discriminate Hne|].
+  cbn [forallb]. change (is_vbyte 32) with true. cbn [andb]. rewrite Hv.
+  unfold trim_ows. rewrite ltrim_sp. reflexivity.
+Qed.
+
+Lemma line_of_take h rest :
+  field_ok h = true ->
+  take_line (line_of h ++ rest) = Some (fst h ++ B ": "%string ++ snd h, rest).
+Proof.
+  intros H. unfold line_of. rewrite !app_assoc_reverse.
+  replace (fst h ++ B ": "%string ++ snd h ++ crlf ++ rest)
+    with ((fst h ++ B ": "%string ++ snd h) ++ crlf ++ rest) by (rewrite !app_assoc_reverse; reflexivity).
+  apply take_line_app.
+  unfold field_ok in H. apply andb_prop in H. destruct H as [H Hv]. apply andb_prop in H. destruct H as [_ Hn].
+  rewrite !forallb_app. rewrite (forallb_impl _ _ _ tchar_line_byte Hn), (forallb_impl _ _ _ vbyte_line_byte Hv).
+  reflexivity.
+Qed.
+
+(** The whole header block sozu writes is read back field by field. *)
+Lemma header_block_roundtrip_fuel hs rest fuel :
+  (List.length hs < fuel)%nat ->
+  forallb field_ok hs = true ->
+  read_headers fuel (flat_map line_of hs ++ crlf ++ rest) =
+  Some (map (fun h => (fst h, trim_ows (snd h))) hs, rest).
+Proof.
+  revert fuel. induction hs as [|h t IH]; intros fuel Hf H.
+  - destruct fuel as [|f]; [inversion Hf|]. reflexivity.
+  - destruct fuel as [|f]; [inversion Hf|]. cbn [List.length] in Hf.
+    cbn [forallb] in H. apply andb_prop in H. destruct H as [Hh Ht].
+    cbn [flat_map]. rewrite app_assoc_reverse.
+    cbn [read_headers]. rewrite (line_of_take h _ Hh).
+    destruct (fst h ++ B ": "%string ++ snd h) eqn:E.
+    + exfalso. unfold field_ok in Hh. destruct (fst h); [discriminate Hh|discriminate E].
+    + rewrite <- E. rewrite (parse_field_line h Hh). rewrite (IH f) by (try lia; assumption). reflexivity.
+Qed.
+
+Lemma header_block_roundtrip hs rest :
+  forallb field_ok hs = true ->
+  read_headers (S (List.length hs)) (flat_map line_of hs ++ crlf ++ rest) =
+  Some (map (fun h => (fst h, trim_ows (snd h))) hs, rest).
+Proof. apply header_block_roundtrip_fuel. lia. Qed.
+
+(* ------------------------------------------------------------------ *)
+(** * what [handle_header] lets through *)
+
+Lemma not_bad_value_vbyte b : bad_value_byte b = false -> is_vbyte b = true.
+Proof.
+  unfold bad_value_byte, is_vbyte. intros H.
+  apply orb_false_elim in H. destruct H as [H H127]. apply orb_false_elim in H. destruct H as [H8 H1031].
+  apply N.leb_gt in H8. apply N.eqb_neq in H127.
+  destruct (b =? 9) eqn:E9; [reflexivity|]. apply N.eqb_neq in E9. cbn [orb].
+  apply andb_false_iff in H1031.
+  assert (32 <= b) by (destruct H1031 as [H|H]; [apply N.leb_gt in H|apply N.leb_gt in H]; lia).
+  destruct (128 <=? b) eqn:E128; [apply orb_true_r|]. apply N.leb_gt in E128.
+  rewrite orb_false_r. apply andb_true_intro. split; apply N.leb_le; lia.
+Qed.
+
+Lemma bad_value_false_vbytes v : bad_value v = false -> forallb is_vbyte v = true.
+Proof.
+  unfold bad_value. induction v as [|b v IH]; cbn; [reflexivity|]. intros H.
+  apply orb_false_elim in H. destruct H as [H1 H2]. rewrite (not_bad_value_vbyte _ H1), (IH H2). reflexivity.
+Qed.
+
+Lemma name_bytes_tchar n : has_invalid_name_byte n = false -> forallb is_tchar n = true.
+Proof.
+  unfold has_invalid_name_byte. induction n as [|b n IH]; cbn; [reflexivity|]. intros H.
+  apply orb_false_elim in H. destruct H as [H1 H2]. apply orb_false_elim in H1. destruct H1 as [_ H1].
+  apply negb_false_iff in H1. rewrite H1, (IH H2). reflexivity.
+Qed.
+
+(** a regular field that passes [classify_invalid_h2_header] is a well-formed H1 field *)
+Lemma valid_regular_field_ok k v :
+  invalid_h2_header k v = false -> (match k with 58 :: _ => true | _ => false end) = false ->
+  field_ok (k, v) = true.
+Proof.
+  unfold invalid_h2_header, field_ok. cbn [fst snd]. destruct k as [|b0 k]; [discriminate|]. intros H Hc.
+  apply orb_false_elim in H. destruct H as [H Hv]. apply orb_false_elim in H. destruct H as [H _].
+  apply orb_false_elim in H. destruct H as [H _].
+  assert (b0 =? 58 = false) as E by (destruct (b0 =? 58) eqn:E; [apply N.eqb_eq in E; subst; discriminate Hc|reflexivity]).
+  rewrite E in H. cbn [negb andb] in H.
+  rewrite (name_bytes_tchar _ H), (bad_value_false_vbytes _ Hv). reflexivity.
+Qed.
+
+Definition items_ok (l : list item) : bool := forallb field_ok (headers_of l).
+
+Lemma headers_of_app' l1 l2 : headers_of (l1 ++ l2) = headers_of l1 ++ headers_of l2.
+Proof. induction l1 as [|[h|] t IH]; cbn; rewrite ?IH; reflexivity. Qed.
+
+Lemma items_ok_snoc l h : items_ok l = true -> field_ok h = true -> items_ok (l ++ [IH h]) = true.
+Proof.
+  unfold items_ok. intros H1 H2. rewrite headers_of_app', forallb_app, H1. cbn. rewrite H2. reflexivity.
+Qed.
+
+Lemma items_ok_cookies l : items_ok l = true -> items_ok (l ++ [ICookies]) = true.
+Proof. unfold items_ok. intros H. rewrite headers_of_app', forallb_app, H. reflexivity. Qed.
+
+(** invariant of the decode loop: every header block pushed so far is well-formed *)
+Lemma step_items_ok s kv : items_ok (h_items s) = true -> items_ok (h_items (step s kv)) = true.
+Proof.
+  intros H. unfold step. destruct (h_invalid s); [exact H|]. destruct kv as [k v].
+  destruct (invalid_h2_header k v) eqn:Ev; [exact H|].
+  repeat (case_if; cbn [h_items set_invalid]; try exact H);
+    try (destruct (store_pseudo _ _ _); cbn [h_items set_invalid]; exact H);
+    try (destruct (h_host s); cbn [h_items]; exact H);
+    try (apply items_ok_cookies; exact H);
+    try (destruct (h_len s); try case_if; cbn [h_items set_invalid]; try exact H);
+    apply items_ok_snoc; try exact H; apply valid_regular_field_ok; assumption.
+Qed.
+
+Lemma fold_items_ok hs s : items_ok (h_items s) = true -> items_ok (h_items (fold_left step hs s)) = true.
+Proof.
+  revert s. induction hs as [|kv t IH]; intros s H; [exact H|]. cbn [fold_left]. apply IH. apply step_items_ok. exact H.
+Qed.
+
+Lemma accepted_items_ok hs es a : accept_h2 hs es = Accept a -> items_ok (a_items a) = true.
+Proof.
+  unfold accept_h2. pose proof (fold_items_ok hs h_init eq_refl) as Hinv.
+  destruct (h_path (fold_left step hs h_init)); [|discriminate].
+  destruct (h_method (fold_left step hs h_init)); [|discriminate].
+  destruct (h_authority (fold_left step hs h_init)); [|discriminate].
+  destruct (h_scheme (fold_left step hs h_init)); [|discriminate].
+  repeat (case_if; try discriminate); intros Ha; injection Ha as <-; cbn [a_items];
+    unfold items_ok in *; rewrite headers_of_app', forallb_app, Hinv; reflexivity.
+Qed.
+
+(* ------------------------------------------------------------------ *)
+(** * Content-Length vs DATA *)
+
+Lemma data_agree_complete declared r evs t n :
+  data_agree declared r evs = Complete t -> declared = Some n -> t = n.
+Proof.
+  intros H Hd. subst declared. revert r H. induction evs as [|e evs IH]; intros r H; [discriminate|].
+  destruct e as [len es|]; cbn [data_agree] in H.
+  - destruct (n <? r + len); [discriminate|]. destruct es.
+    + destruct (r + len =? n) eqn:E; cbn [negb] in H; [|discriminate]. injection H as <-. apply N.eqb_eq. exact E.
+    + apply (IH _ H).
+  - destruct (r =? n) eqn:E; cbn [negb] in H; [|discriminate]. injection H as <-. apply N.eqb_eq. exact E.
+Qed.
+
+Lemma data_agree_never_exceeds declared r evs n :
+  declared = Some n -> r <= n ->
+  match data_agree declared r evs with Open t | Complete t => t <= n | Reset => True end.
+Proof.
+  intros Hd. subst declared. revert r. induction evs as [|e evs IH]; intros r Hr; cbn [data_agree]; [exact Hr|].
+  destruct e as [len es|].
+  - destruct (n <? r + len) eqn:E; [exact I|]. apply N.ltb_ge in E. destruct es.
+    + destruct (r + len =? n); cbn [negb]; [exact E|exact I].
+    + apply IH. exact E.
+  - destruct (r =? n); cbn [negb]; [exact Hr|exact I].
+Qed.
+
+(* ------------------------------------------------------------------ *)
+(** * request line: the pseudo-header values that reach it *)
+
+Definition pseudo_ok (v : list N) : bool :=
+  negb (match v with [] => true | _ => false end) && negb (bad_pseudo_value v).
+
+Definition opt_ok (p : list N -> bool) (o : option (list N)) : bool :=
+  match o with Some v => p v | None => true end.
+
+Definition line_state_ok (s : hstate) : bool :=
+  opt_ok (fun v => pseudo_ok v && forallb is_tchar v) (h_method s) &&
+  opt_ok pseudo_ok (h_path s) && opt_ok pseudo_ok (h_authority s).
+
+Lemma store_pseudo_ok d r v x : store_pseudo d r v = Some x -> x = v /\ pseudo_ok v = true.
+Proof.
+  unfold store_pseudo, pseudo_ok. destruct d; [discriminate|]. destruct r; [discriminate|].
+  destruct v as [|b v]; [discriminate|]. destruct (bad_pseudo_value (b :: v)); [discriminate|].
+  intros H. injection H as <-. split; reflexivity.
+Qed.
+
+Lemma step_line_ok s kv : line_state_ok s = true -> line_state_ok (step s kv) = true.
+Proof.
+  intros H. unfold step. destruct (h_invalid s); [exact H|]. destruct kv as [k v].
+  destruct (invalid_h2_header k v); [exact H|].
+  unfold line_state_ok in *. apply andb_prop in H. destruct H as [H Ha]. apply andb_prop in H. destruct H as [Hm Hp].
+  repeat (case_if; cbn [h_method h_path h_authority set_invalid]; try (rewrite Hm, Hp, Ha; reflexivity));
+    try (destruct (store_pseudo _ _ v) eqn:Es; cbn [h_method h_path h_authority set_invalid];
+         [apply store_pseudo_ok in Es; destruct Es as [-> Es]; cbn [opt_ok]|]);
+    try (destruct (h_host s)); try (destruct (h_len s); try case_if);
+    cbn [h_method h_path h_authority set_invalid opt_ok];
+    rewrite ?Hm, ?Hp, ?Ha, ?Es; cbn [andb]; try reflexivity.
+  all: try match goal with H : negb (forallb is_tchar ?x) = false |- _ => apply negb_false_iff in H; rewrite H; reflexivity end.
+Qed.
+
+Lemma fold_line_ok hs s : line_state_ok s = true -> line_state_ok (fold_left step hs s) = true.
+Proof.
+  revert s. induction hs as [|kv t IH]; intros s H; [exact H|]. cbn [fold_left]. apply IH. apply step_line_ok. exact H.
+Qed.
+
+Lemma accepted_line_ok hs es a :
+  accept_h2 hs es = Accept a ->
+  pseudo_ok (a_method a) = true /\ forallb is_tchar (a_method a) = true /\
+  pseudo_ok (a_path a) = true /\ pseudo_ok (a_authority a) = true.
+Proof.
+  unfold accept_h2. pose proof (fold_line_ok hs h_init eq_refl) as Hinv. unfold line_state_ok in Hinv.
+  destruct (h_path (fold_left step hs h_init)); [|discriminate].
+  destruct (h_method (fold_left step hs h_init)); [|discriminate].
+  destruct (h_authority (fold_left step hs h_init)); [|discriminate].
+  destruct (h_scheme (fold_left step hs h_init)); [|discriminate].
+  cbn [opt_ok] in Hinv. apply andb_prop in Hinv. destruct Hinv as [Hinv Ha]. apply andb_prop in Hinv.
+  destruct Hinv as [Hm Hp]. apply andb_prop in Hm. destruct Hm as [Hm1 Hm2].
+  repeat (case_if; try discriminate); intros H; injection H as <-; cbn [a_method a_path a_authority];
+    repeat split; assumption.
+Qed.
+
+(** a pseudo value that passed has no SP, no CTL: it cannot split the request line *)
+Lemma pseudo_ok_no_sp v : pseudo_ok v = true -> forallb (fun b => (33 <=? b) && negb (b =? 127)) v = true.
+Proof.
+  unfold pseudo_ok, bad_pseudo_value. intros H. apply andb_prop in H. destruct H as [_ H].
+  apply negb_true_iff in H. induction v as [|b v IH]; [reflexivity|]. cbn [existsb] in H. cbn [forallb].
+  apply orb_false_elim in H. destruct H as [H1 H2]. apply orb_false_elim in H1. destruct H1 as [H32 H127].
+  rewrite (IH H2), H127. apply N.leb_gt in H32. assert (33 <=? b = true) as -> by (apply N.leb_le; lia). reflexivity.
+Qed.
+
+Lemma ser_h1_no_cookies l : ser_h1 l false [] = headers_of l.
+Proof. induction l as [|[h|] t IH]; cbn; rewrite ?IH; reflexivity. Qed.
